@@ -584,7 +584,7 @@ def exhaustive : List Case := Id.run do
         | _, .set [] => true
         | _, _ => false
       if !same && i % 11 != 0 then continue
-      let c := if i % 7 == 3 then mkCond s!"C09-x{i}" [] [p, .name "_"] v "/exh" else mkLet s!"C09-x{i}" false [] p v "/exh"
+      let c := if i % 7 == 3 && det p then mkCond s!"C09-x{i}" [] [p, .name "_"] v "/exh" else mkLet s!"C09-x{i}" false [] p v "/exh"
       out := c :: out
   pure out.reverse
 
